@@ -57,7 +57,7 @@ Proof.
         destruct (on_path g d m h') eqn:Hop; [|reflexivity]. simpl.
         apply on_path_true in Hop. destruct Hop as (m' & Hd' & Hm').
         apply distb_some in Hd'. destruct Hd' as [Hd' _].
-        apply N.leb_le. apply Hleast; [exact Hh'|].
+        apply Z.leb_le. apply Hleast; [exact Hh'|].
         replace (N.of_nat m - 1) with (N.of_nat m') by lia. exact Hd'.
   - apply forallb_forall. intros d _.
     destruct (distb g i d) as [m|] eqn:Hd; [|reflexivity].
@@ -336,4 +336,25 @@ Proof.
   - exact Hr.
   - split; [apply fixed_point_fixedb; assumption|].
     apply conv_converged; [exact Hok'|]. rewrite Hg'. exact Hc.
+Qed.
+
+(* ------------------------------------------------------------------------------------------ *)
+(* the oracle's predicate (any next hop one hop closer) is implied by the theorems' one        *)
+(* ------------------------------------------------------------------------------------------ *)
+Lemma table_ok_weak : forall g i tbl, table_ok g i tbl = true -> table_okw g i tbl = true.
+Proof.
+  intros g i tbl H. unfold table_ok in H. unfold table_okw.
+  apply andb_true_iff in H. destruct H as [H1 H2]. apply andb_true_iff. split; [|exact H2].
+  rewrite forallb_forall in *. intros [d [c h]] Hin. specialize (H1 _ Hin). simpl in *.
+  destruct (distb g i d) as [m|]; [|discriminate].
+  apply andb_true_iff in H1. destruct H1 as [A B]. apply andb_true_iff. split; [exact A|].
+  unfold hop_ok in B. unfold hop_okw. destruct (i =? d); [exact B|].
+  apply andb_true_iff in B. destruct B as [B _]. exact B.
+Qed.
+
+Theorem converged_weak : forall S, converged S = true -> convergedw S = true.
+Proof.
+  intros S H. unfold converged in H. unfold convergedw. rewrite forallb_forall in *.
+  intros r Hr. specialize (H r Hr). apply andb_true_iff in H. destruct H as [A B].
+  apply andb_true_iff. split; [apply table_ok_weak; exact A | exact B].
 Qed.
